@@ -1,9 +1,10 @@
-/* C05 frames: janet_fiber_funcframe / janet_fiber_funcframe_tail (fiber.c) under dfcc contracts with loop contracts.
+/* C05 frames: janet_fiber_funcframe (fiber.c) under a dfcc contract with a loop contract. (The tail variant is in
+ * fib_frame_tail.c: its dfcc form - two loop contracts plus a freeing realloc contract - did not finish in 10 minutes.)
  * A fiber enters a function (new -> alive) through one of these two; what the property needs of them:
  *   - an arity mismatch is refused (return 1) and changes NOTHING of the fiber (fields and every stack slot);
  *   - on success every slot of the new frame that does not hold an argument is nil: data[g] == nil for every ghost index g in
  *     [old stacktop, new stacktop) (funcframe) - the vararg slot holds the rest tuple/struct instead;
- *   - the frame chain stays intact: funcframe links the new frame to the old one (prevframe), the tail variant keeps fiber->frame.
+ *   - the frame chain stays intact: funcframe links the new frame to the old one (prevframe), the tail variant keeps fiber->frame (fib_frame_tail.c).
  * The nil-fill loops are closed with loop invariants over the ghost index (DESIGN R2): the slot count is unbounded up to
  * janet_verify's limit 2^24 and the stack size up to 2^30 slots. */
 #include "fib_resume.h"
@@ -27,11 +28,6 @@ void fib_setcapacity_c(JanetFiber *fiber, int32_t n)
 /* PROVED at the call sites: the requested size is positive and did not wrap */
 __CPROVER_requires(n > 0 && n >= fiber->capacity)
 __CPROVER_assigns(fiber->capacity, fiber->data)
-#ifdef FIB_REALLOC_FREES
-/* realloc: the old block is gone (every pointer into it is dangling) */
-__CPROVER_frees(fiber->data)
-__CPROVER_ensures(__CPROVER_was_freed(__CPROVER_old(fiber->data)))
-#endif
 __CPROVER_ensures(fiber->capacity == n)
 __CPROVER_ensures(__CPROVER_is_fresh(fiber->data, (size_t) n * sizeof(Janet)))
 ;
@@ -41,13 +37,6 @@ __CPROVER_assigns() __CPROVER_ensures(1);
 static Janet fib_make_struct_n_c(const Janet *args, int32_t n)
 __CPROVER_requires(n >= 0 && (n == 0 || __CPROVER_r_ok(args, (size_t) n * sizeof(Janet))))
 __CPROVER_assigns() __CPROVER_ensures(1);
-/* detaching the closure environment of the replaced frame copies slots out of the stack; it does not write the fiber or its stack */
-static void fib_env_detach_c(JanetFuncEnv *env) __CPROVER_requires(1) __CPROVER_assigns() __CPROVER_ensures(1);
-void *fib_memmove_c(void *dest, const void *src, size_t n)
-__CPROVER_requires(__CPROVER_w_ok(dest, n) && __CPROVER_r_ok(src, n))
-__CPROVER_assigns(__CPROVER_object_upto(dest, n))
-__CPROVER_ensures(1);
-
 /* representation invariant: fiber_reset / every frame push leave JANET_FRAME_SIZE <= stackstart <= stacktop <= capacity, the
  * current frame (header included) below stackstart; function definitions have passed janet_verify (0 <= arity (+1 if
  * variadic) <= slotcount <= 2^24). The stack limit 2^30 slots (8 GiB) keeps `2 * nextstacktop` inside int32. */
@@ -87,34 +76,6 @@ __CPROVER_ensures(__CPROVER_return_value == 0 ==>
 __CPROVER_ensures((__CPROVER_return_value == 0 && g_idx >= __CPROVER_old(fiber->stacktop) && g_idx < fiber->stacktop &&
                    !(IS_VARARG && g_idx == fiber->frame + func->def->arity)) ==> fiber->data[g_idx].u64 == FIB_NILBITS)
 ;
-int fib_funcframe_tail_c(JanetFiber *fiber, JanetFunction *func)
-WF_FRAME_REQUIRES
-/* the frame being replaced has a header */
-__CPROVER_requires(fiber->frame >= JANET_FRAME_SIZE)
-__CPROVER_assigns(fiber->stackstart, fiber->stacktop, fiber->capacity, fiber->data, __CPROVER_object_whole(fiber->data))
-#ifdef FIB_REALLOC_FREES
-__CPROVER_frees(fiber->data)
-#endif
-__CPROVER_ensures(__CPROVER_return_value == (ARITY_OK_OLD ? 0 : 1))
-__CPROVER_ensures(__CPROVER_return_value == 1 ==>
-   (fiber->stackstart == __CPROVER_old(fiber->stackstart) &&
-    fiber->stacktop == __CPROVER_old(fiber->stacktop) && fiber->capacity == __CPROVER_old(fiber->capacity) &&
-    fiber->data == __CPROVER_old(fiber->data) && fiber->data[g_idx].u64 == __CPROVER_old(fiber->data[g_idx].u64)))
-/* the tail variant keeps fiber->frame (frame field outside the assigns clause) and re-sizes the frame in place */
-__CPROVER_ensures(__CPROVER_return_value == 0 ==>
-   (fiber->stackstart == fiber->stacktop && fiber->stacktop == fiber->frame + func->def->slotcount + JANET_FRAME_SIZE && fiber->stacktop <= fiber->capacity))
-__CPROVER_ensures(__CPROVER_return_value == 0 ==>
-   (HDR_FUNC(fiber) == func && HDR_PC(fiber) == func->def->bytecode && HDR_ENV(fiber) == (void *)0 &&
-    ((HDR_PREV_FLAGS(fiber) >> 32) & JANET_STACKFRAME_TAILCALL) &&
-    /* the link to the caller's frame is untouched */
-    (uint32_t) HDR_PREV_FLAGS(fiber) == (uint32_t) __CPROVER_old(fiber->data[fiber->frame - 1].u64)))
-/* locals beyond the moved arguments are nil */
-__CPROVER_ensures((__CPROVER_return_value == 0 && !IS_VARARG &&
-                   g_idx >= fiber->frame + (__CPROVER_old(fiber->stacktop) - __CPROVER_old(fiber->stackstart)) &&
-                   g_idx < fiber->frame + func->def->slotcount) ==> fiber->data[g_idx].u64 == FIB_NILBITS)
-__CPROVER_ensures((__CPROVER_return_value == 0 && IS_VARARG && g_idx > fiber->frame + func->def->arity &&
-                   g_idx < fiber->frame + func->def->slotcount) ==> fiber->data[g_idx].u64 == FIB_NILBITS)
-;
 void h_funcframe(void) {
   JanetFiber *f; JanetFunction *fn;
   __CPROVER_assert(FIB_NILBITS == (janet_nanbox_tag(JANET_NIL) | 1), "C05 frames: nil bit pattern of the loop invariant is janet_wrap_nil()");
@@ -123,12 +84,4 @@ void h_funcframe(void) {
   REACH("janet_fiber_funcframe returns");
   if (r == 0) REACH("janet_fiber_funcframe pushes a frame");
   if (r == 1) REACH("janet_fiber_funcframe refuses the arity");
-}
-void h_funcframe_tail(void) {
-  JanetFiber *f; JanetFunction *fn;
-  HDR_LAYOUT_LEMMA;
-  int r = janet_fiber_funcframe_tail(f, fn);
-  REACH("janet_fiber_funcframe_tail returns");
-  if (r == 0) REACH("janet_fiber_funcframe_tail replaces the frame");
-  if (r == 1) REACH("janet_fiber_funcframe_tail refuses the arity");
 }
